@@ -898,3 +898,38 @@ Proof.
   - apply (chars_of_notin pkg H1). now apply HI.
   - apply sorted_NoDup, set_of_list_sorted.
 Qed.
+
+(** * The module-level functions: reverse(), read_tag_database*() *)
+
+(** [reverse(db)] is the inverse index of any dict *)
+Theorem reverse_inverse (d : dict) : nodupb (keys d) = true -> Inv (of_db d).
+Proof.
+  intros H p t. unfold packages_of_tag, tags_of_package, of_db. simpl.
+  apply reverse_d_get. now apply nodupb_NoDup.
+Qed.
+
+Lemma read_db_fold_NoDup recs : forall d : dict,
+  NoDup (keys d) ->
+  NoDup (keys (fold_left (fun d (pt : sset * sset) =>
+                 fold_left (fun d p => dict_set p (snd pt) d) (fst pt) d) recs d)).
+Proof.
+  induction recs as [|pt recs IH]; intros d H; simpl; [assumption|].
+  apply IH. generalize dependent d. induction (fst pt) as [|p ps IHp]; intros d H; simpl; [assumption|].
+  apply IHp. now apply NoDup_keys_dict_set.
+Qed.
+
+Theorem read_db_reverse_inverse lines : Inv (of_db (read_db lines)).
+Proof.
+  intros p t. unfold packages_of_tag, tags_of_package, of_db. simpl.
+  apply reverse_d_get. unfold read_db. apply read_db_fold_NoDup. constructor.
+Qed.
+
+(** [read_tag_database_both_ways] without a filter is the pair of the two one-way readers *)
+Theorem read_both_components lines :
+  read_both None lines = (read_db lines, read_db_reversed lines).
+Proof.
+  unfold read_both, read_both_parsed, read_db, read_db_reversed.
+  generalize (parse_tags lines). intros recs.
+  generalize (@nil (str * sset)) at 1 3. generalize (@nil (str * sset)).
+  induction recs as [|pt recs IH]; intros a b; simpl; [reflexivity|]. apply IH.
+Qed.
